@@ -59,6 +59,24 @@ fn pratt_parens<'a>() -> impl Parser<'a, &'a str, usize, Ex> {
     })
 }
 
+/// long FLAT runs: every iteration consumer loops, none may recurse per item (stack use independent of the run length)
+fn flat<'a>(probe: &str) -> chumsky::Boxed<'a, 'a, &'a str, usize, Ex> {
+    let item = just('+').to(1usize);
+    let tail = just('1').to(0usize);
+    match probe {
+        "flat_foldr" => item.repeated().foldr(tail, |x, acc| x + acc).boxed(),
+        "flat_foldr_with" => item.repeated().foldr_with(tail, |x, acc, _| x + acc).boxed(),
+        "flat_foldl" => tail.foldl(item.repeated(), |acc, x| acc + x).boxed(),
+        "flat_foldl_with" => tail.foldl_with(item.repeated(), |acc, x, _| acc + x).boxed(),
+        "flat_collect" => item.repeated().collect::<Vec<_>>().map(|v| v.len()).then_ignore(tail).boxed(),
+        "flat_count" => item.repeated().count().then_ignore(tail).boxed(),
+        "flat_sep" => item.separated_by(just(',')).allow_trailing().collect::<Vec<_>>().map(|v| v.len()).then_ignore(tail).boxed(),
+        "flat_ornot" => item.or_not().repeated().at_most(usize::MAX / 2).count().then_ignore(tail).boxed(),
+        "flat_plain" => item.repeated().to_slice().map(|s: &str| s.len()).then_ignore(tail).boxed(),
+        _ => tail.boxed(),
+    }
+}
+
 fn pratt_table<'a>() -> impl Parser<'a, &'a str, usize, Ex> {
     let atom = just('1').to(0usize);
     atom.pratt((
@@ -81,6 +99,9 @@ fn input_for(probe: &str, depth: usize) -> String {
             s.push(if depth % 2 == 0 { 'x' } else { 'y' });
             s
         }
+        "flat_sep" => format!("{}1", "+,".repeat(depth)),
+        "flat_foldl" | "flat_foldl_with" => format!("1{}", "+".repeat(depth)),
+        p if p.starts_with("flat_") => format!("{}1", "+".repeat(depth)),
         "pratt_prefix" => format!("{}1", "-".repeat(depth)),
         "pratt_postfix" => format!("1{}", "!".repeat(depth)),
         "pratt_infixr" => format!("1{}", "^1".repeat(depth)),
@@ -118,6 +139,7 @@ pub fn main() {
                 "mutual_boxed" => run!(mutual_boxed()),
                 "declared_boxed" => run!(declared_boxed()),
                 "pratt_parens" => run!(pratt_parens()),
+                p if p.starts_with("flat_") => run!(flat(p)),
                 "pratt_prefix" | "pratt_postfix" | "pratt_infixr" | "pratt_infixl" => run!(pratt_table()),
                 _ => "unknown-probe".to_string(),
             }
